@@ -498,6 +498,37 @@ theorem upperEsc_canonOpt (U : List UInt8) (hU : (0x25 : UInt8) ∈ U) {o : Opti
     · simp only [canonOpt, hu, Bool.false_eq_true, if_false, strOf_some, requote, Option.getD_some]
       exact ⟨upperEsc_safelyUnquote U hU (h u rfl), upperEsc_safelyUnquote U hU (h u rfl)⟩
 
+/-- `requoteNfkc` writes upper-case escapes (FX-C01-NFKCUSERINFO) -/
+theorem upperEsc_unquoteAuthItem {s : Str} (h : UpperEsc s) : UpperEsc (unquoteAuthItem s) := by
+  intro t ht
+  rw [unquoteAuthItem_eq, tokens_authItem, ← tokens_safelyUnquote _ pct_auth] at ht
+  simp only [nfkcToks, List.mem_flatMap] at ht
+  obtain ⟨t0, h0, ht⟩ := ht
+  have hup := upperEsc_safelyUnquote _ pct_auth h t0 h0
+  cases t0 with
+  | raw c =>
+    simp only [nfkcTok] at ht
+    split at ht
+    · simp only [List.mem_map] at ht
+      obtain ⟨b, _, rfl⟩ := ht
+      exact upTok_escOfByte b
+    · simp only [List.mem_singleton] at ht; subst ht; exact hup
+  | esc h1 h2 => simp only [nfkcTok, List.mem_singleton] at ht; subst ht; exact hup
+  | stray => simp only [nfkcTok, List.mem_singleton] at ht; subst ht; exact hup
+
+theorem upperEsc_canonOpt_auth {o : Option Str} (h : ∀ u, o = some u → UpperEsc u) :
+    UpperEsc (strOf (canonOpt false unquoteAuthItem o)) ∧
+    UpperEsc ((canonOpt false unquoteAuthItem o).getD []) := by
+  cases o with
+  | none => simp [canonOpt, strOf_none, upperEsc_nil]
+  | some u =>
+    by_cases hu : u.isEmpty = true
+    · have : u = [] := by simpa using hu
+      subst this
+      simp [canonOpt, strOf_some, upperEsc_nil]
+    · simp only [canonOpt, hu, Bool.false_eq_true, if_false, strOf_some, requote, Option.getD_some]
+      exact ⟨upperEsc_unquoteAuthItem (h u rfl), upperEsc_unquoteAuthItem (h u rfl)⟩
+
 /-! ## the cleaning pass on a printed URL -/
 
 theorem upperEsc_append_of_sepHead {a b : Str} (ha : UpperEsc a) (hb : UpperEsc b)
@@ -658,7 +689,7 @@ theorem upperEsc_printed_body (hup : UpFacts p) (hpath : PathIdem)
   -- pieces
   have hnl : UpperEsc (canonParts puny false sf p).netloc := by
     rw [canonParts_netloc_eq, canonComps_user, canonComps_pass]
-    exact upperEsc_netloc (upperEsc_canonOpt _ hU hup.user).1 (upperEsc_canonOpt _ hU hup.pass).1
+    exact upperEsc_netloc (upperEsc_canonOpt_auth hup.user).1 (upperEsc_canonOpt_auth hup.pass).1
       (host_no_pct hpc sf h hpct)
   have hpa : UpperEsc (canonParts puny false sf p).path := by
     rw [canonParts_path, canonComps_path_eq hpc false sf h]
@@ -950,6 +981,23 @@ theorem unq_strOf_canonOpt (U : List UInt8) (hU : (0x25 : UInt8) ∈ U) (hA : As
   cases o with
   | none => simp [canonOpt, strOf_none, safelyUnquote_nil]
   | some x => rw [strOf_canonOpt_some, safelyUnquote_idem' U hU hA]
+
+/-- the same two facts for a user name / password (`safely_unquote_auth_item` is the partial
+followed by `requoteNfkc`, FX-C01-NFKCUSERINFO) -/
+theorem strOf_canonOpt_some_auth (x : Str) :
+    strOf (canonOpt false unquoteAuthItem (some x)) = unquoteAuthItem x := by
+  by_cases hx : x.isEmpty = true
+  · have : x = [] := by simpa using hx
+    subst this
+    simp [canonOpt, strOf_some, unquoteAuthItem_nil]
+  · simp [canonOpt, hx, strOf_some, requote]
+
+theorem unq_strOf_canonOpt_auth (o : Option Str) :
+    unquoteAuthItem (strOf (canonOpt false unquoteAuthItem o)) =
+      strOf (canonOpt false unquoteAuthItem o) := by
+  cases o with
+  | none => simp [canonOpt, strOf_none, unquoteAuthItem_nil]
+  | some x => rw [strOf_canonOpt_some_auth, unquoteAuthItem_idem]
 
 theorem canonHost_nil (puny : Str → Str) : canonHost puny [] = [] := by
   simp [canonHost, decodePunycodeHostname, splitOn_nil, join, Py.lower]
@@ -1377,10 +1425,8 @@ theorem canonParts_reparsed (hpath : PathIdem) :
       subst e
       by_cases hc : strOf cp ≠ [] ∨ strOf (canonOpt false unquoteAuthItem p.username) ≠ []
       · rw [if_pos hc]
-        have := strOf_canonOpt_some Gen.Quote.unsafeForAuthItem
-          (strOf (canonOpt false unquoteAuthItem p.username))
-        rw [show unquoteAuthItem = safelyUnquote Gen.Quote.unsafeForAuthItem from rfl] at *
-        rw [this]; exact unq_strOf_canonOpt _ hU asciiSet_auth _
+        have := strOf_canonOpt_some_auth (strOf (canonOpt false unquoteAuthItem p.username))
+        rw [this]; exact unq_strOf_canonOpt_auth _
       · rw [if_neg hc]
         simp only [not_or, Classical.not_not] at hc
         rw [hc.2]; simp [canonOpt, strOf_none]
@@ -1391,10 +1437,8 @@ theorem canonParts_reparsed (hpath : PathIdem) :
       subst e
       by_cases hc : strOf (canonOpt false unquoteAuthItem p.password) ≠ []
       · rw [if_pos hc]
-        have := strOf_canonOpt_some Gen.Quote.unsafeForAuthItem
-          (strOf (canonOpt false unquoteAuthItem p.password))
-        rw [show unquoteAuthItem = safelyUnquote Gen.Quote.unsafeForAuthItem from rfl] at *
-        rw [this]; exact unq_strOf_canonOpt _ hU asciiSet_auth _
+        have := strOf_canonOpt_some_auth (strOf (canonOpt false unquoteAuthItem p.password))
+        rw [this]; exact unq_strOf_canonOpt_auth _
       · rw [if_neg hc]
         simp only [Classical.not_not] at hc
         rw [hc]; simp [canonOpt, strOf_none]
